@@ -16,7 +16,7 @@ RuleDecorator = TypeVar("RuleDecorator", bound=Callable[..., Any])
 
 _RWS = r"\s+"
 _INTEGER = r"[+-]?\d+"
-_DATE = r"[1-9]\d{3}-(?:0\d|1[0-2])-(?:[0-2]\d|3[01])"
+_DATE = r"\d{4}-(?:0\d|1[0-2])-(?:[0-2]\d|3[01])"
 _TIME = r"(?:[01]\d|2[0-3]):[0-5]\d(:?:[0-5]\d(?:\.\d{1,12})?)"
 
 # Defines known functions and min/max nr of args:
